@@ -314,6 +314,14 @@ def build_functions(W):
         add(f"{key}.zero", "field", [], cls.zero, result_tag=E)
         if "FQ12" in key or "FQ2" in key:
             add(f"{key}.inv", "field", [E], lambda x: x.inv())
+            # extension elements whose coefficients are supplied as base-field OBJECTS (the constructors
+            # accept Sequence[IntOrFQ]); the objects handed in - pool values, module constants - must
+            # survive every later operation on the element
+            base_key = key.rsplit("_", 1)[0].replace("_m1", "").replace("_m2", "") + "_FQ"
+            if base_key in W.cls_by_key and W.cls_by_key[base_key].field_modulus == cls.field_modulus:
+                deg = 2 if key.endswith("FQ2") else 12
+                add(f"{key}.from_FQ_objects", "field", [f"E:{base_key}", f"E:{base_key}"],
+                    lambda a, b, _c=cls, _d=deg: _c([a, b] * (_d // 2)), result_tag=E)
         if key.startswith("optimized") or key.startswith("adhoc_opt"):
             add(f"{key}.sgn0", "field", [E], lambda x: x.sgn0)
         if key.endswith("_FQ"):
